@@ -332,6 +332,8 @@ func (v Val) Go() any {
 		return nil
 	case v.G == "chan":
 		return make(chan int)
+	case v.G == "strtext":
+		return v.S // a Go string holding the text form of a non-text value
 	case strings.HasPrefix(v.G, "pg:"):
 		return pgStruct(v.G[3:], v, true)
 	case strings.HasPrefix(v.G, "inv:"):
@@ -357,6 +359,13 @@ func (v Val) Go() any {
 func (v Val) Canon(oidv uint32) pgwire.Value {
 	if v.IsNull() {
 		return pgwire.Value{Null: true}
+	}
+	if v.G == "strtext" {
+		cv, err := pgwire.Decode(oidv, 0, []byte(v.S))
+		if err != nil {
+			return pgwire.Value{Kind: "?"}
+		}
+		return cv
 	}
 	kind := pgwire.KindOf(oidv)
 	switch kind {
@@ -475,6 +484,7 @@ func (rt *Runtime) parseFn(ctx context.Context, query string) (wire.PreparedStat
 	c.retain("query", query)
 	c.checkRetained("parse")
 	rt.inspectCtx(c, ctx, "parse")
+	c.cmdCtx = ctx
 	prog := rt.programFor(query)
 	if prog.ParseErr != nil {
 		c.rec("parse-ret", "err")
